@@ -252,6 +252,16 @@ def crashMid (s : Shard) : Shard :=
   | j :: _ => if j.step == 0 && !j.evs.isEmpty then restart (crash (midWrite s j)) else s
   | [] => s
 
+/-- The head job cannot create its segment directory (`Flusher::flush` answers an error at
+`create_dir_all`): the job is over, its passive buffer is RETAINED (the flush worker clears it only
+after verification; the rows are still in the WAL), the in-flight marker is dropped, no WAL
+cleanup runs. Applies to a job parked at its start whose directory id is not on disk; an empty job
+ends the same way (it never creates a directory). Otherwise nothing happens. -/
+def failHead (s : Shard) : Shard :=
+  match s.jobs with
+  | j :: rest => if j.step == 0 && !s.segs.any (·.1 == j.seg) then { s with jobs := rest } else s
+  | [] => s
+
 /-- Clean shutdown as the harness performs it: `flush_all` (manual flush, waits), then WAL
 shutdown. -/
 def shutdown (s : Shard) : Shard := drainAll (flushCmd (drainAll s))
